@@ -815,7 +815,9 @@ func (b *builder) splice(call *ast.CallExpr, lhs []ast.Expr, tok token.Token, ta
 			case *ast.CallExpr, *ast.FuncLit, *ast.CompositeLit:
 				pure = false
 			case *ast.UnaryExpr:
-				if x.Op == token.ARROW || x.Op == token.AND {
+				// (&x of a variable or field is the same pointer wherever it is written; &T{...} is excluded by the
+				// composite literal)
+				if x.Op == token.ARROW {
 					pure = false
 				}
 			}
